@@ -559,3 +559,95 @@ Section Theorems.
       rewrite E. eexists; reflexivity.
   Qed.
 End Theorems.
+
+(* ---------------------------------------------------------------------------------------------
+   further consequences (M4)
+   --------------------------------------------------------------------------------------------- *)
+Section More.
+  Context {I Args : Type} (W : I -> list Q).
+
+  (* for an infeasible individual DeltaPenalty's outcome and log do not depend on the evaluation
+     function or on the extra arguments at all *)
+  Lemma delta_ignores_evaluator feas delta dist (func func' : I -> Args -> val) i (a a' : Args) :
+    feas i = false ->
+    delta_penalty W feas delta dist func i a = delta_penalty W feas delta dist func' i a'.
+  Proof.
+    intro H. unfold delta_penalty.
+    destruct (delta_init (Args := Args) feas delta dist) as [[s|e] l] eqn:E; [|reflexivity].
+    assert (Hs : d_fbty_fct s i = false).
+    { destruct delta; cbn in E; inversion E; subst; exact H. }
+    unfold bind. unfold delta_wrapper, bind, call_feasibility. rewrite Hs. reflexivity.
+  Qed.
+
+  (* ClosestValidPenalty depends on the evaluation function only through its value at the closest
+     valid point: the infeasible individual itself is never evaluated *)
+  Lemma closest_only_valid_point feas fbl alpha dist (func func' : I -> Args -> val) i (a : Args) :
+    feas i = false ->
+    func (fbl i) a = func' (fbl i) a ->
+    closest_valid_penalty W feas fbl alpha dist func i a =
+    closest_valid_penalty W feas fbl alpha dist func' i a.
+  Proof.
+    intros H E. rewrite !closest_penalty_unfold.
+    unfold closest_wrapper, bind, call_feasibility, call_closest, call_func. cbn. rewrite H, E. reflexivity.
+  Qed.
+
+  (* no distance function: exactly the constant / exactly the closest valid fitness (as numbers) *)
+  Lemma delta_without_distance feas delta func i (a : Args) :
+    feas i = false -> num_or_tup delta ->
+    exists r, delta_penalty W feas delta None func i a = (Ok (VTup r), [EFeas i]) /\
+      forall k, (k < length r)%nat -> nth k r 0 == vnth k delta.
+  Proof.
+    intros H Hd.
+    destruct (delta_formula W feas delta None func i a H Hd Logic.I) as (r & E & _ & _ & F).
+    exists r. split; [exact E|]. intros k Hk. rewrite (F k Hk). cbn [dval1].
+    rewrite vnth_zeros. ring.
+  Qed.
+
+  Lemma closest_without_penalty feas fbl alpha dist func i (a : Args) fv :
+    feas i = false -> func (fbl i) a = VTup fv -> length fv = length (W i) ->
+    num_or_tup (dval2 W dist (fbl i) i) ->
+    dist = None \/ alpha == 0 ->
+    exists r log, closest_valid_penalty W feas fbl alpha dist func i a = (Ok (VTup r), log) /\
+      forall k, (k < length r)%nat -> nth k r 0 == nth k fv 0.
+  Proof.
+    intros H F L Hx Hz.
+    destruct (closest_formula W feas fbl alpha dist func i a fv H F L Hx) as (r & E & _ & _ & G).
+    exists r. eexists. split; [exact E|]. intros k Hk. rewrite (G k Hk).
+    destruct Hz as [-> | Ha].
+    - cbn [dval2]. rewrite vnth_zeros. ring.
+    - rewrite Ha. ring.
+  Qed.
+
+  (* strictly worse as soon as the charged distance is positive and the weight is non-zero *)
+  Lemma delta_strictly_worse feas delta dist func i (a : Args) r log :
+    feas i = false -> num_or_tup delta -> num_or_tup (dval1 W dist i) ->
+    delta_penalty W feas delta dist func i a = (Ok (VTup r), log) ->
+    forall k, (k < length r)%nat -> 0 < vnth k (dval1 W dist i) ->
+      let w := nth k (W i) 0 in
+      (0 < w -> nth k r 0 < vnth k delta) /\ (w < 0 -> vnth k delta < nth k r 0).
+  Proof.
+    intros H Hd Hx E k Hk Hpos w.
+    destruct (delta_formula W feas delta dist func i a H Hd Hx) as (r' & E' & _ & _ & F).
+    rewrite E' in E. injection E as <- _. rewrite (F k Hk). fold w.
+    split; intro Hw.
+    - rewrite (sgn_nonneg w) by lra. lra.
+    - rewrite (sgn_neg w Hw). lra.
+  Qed.
+
+  Lemma closest_strictly_worse feas fbl alpha dist func i (a : Args) fv r log :
+    feas i = false -> func (fbl i) a = VTup fv -> length fv = length (W i) ->
+    num_or_tup (dval2 W dist (fbl i) i) ->
+    closest_valid_penalty W feas fbl alpha dist func i a = (Ok (VTup r), log) ->
+    forall k, (k < length r)%nat -> 0 < alpha -> 0 < vnth k (dval2 W dist (fbl i) i) ->
+      let w := nth k (W i) 0 in
+      (0 < w -> nth k r 0 < nth k fv 0) /\ (w < 0 -> nth k fv 0 < nth k r 0).
+  Proof.
+    intros H Fv L Hx E k Hk Ha Hpos w.
+    destruct (closest_formula W feas fbl alpha dist func i a fv H Fv L Hx) as (r' & E' & _ & _ & F).
+    rewrite E' in E. injection E as <- _. rewrite (F k Hk). fold w.
+    pose proof (Qmult_lt_0_compat _ _ Ha Hpos) as P.
+    split; intro Hw.
+    - rewrite (sgn_nonneg w) by lra. lra.
+    - rewrite (sgn_neg w Hw). lra.
+  Qed.
+End More.
